@@ -1,5 +1,6 @@
 // C20 — s-expression reader: independent reference reader, tree model, oracle.
 #pragma once
+#include <cerrno>
 #include "support/vp.hpp"
 #include "support/ufw.hpp"
 #include <memory>
@@ -130,7 +131,11 @@ inline Outcome check_input(const std::string &in) {
     Outcome o; o.nontrivial = false;
     RefResult r = reference(in);
     o.ref = r.v;
-    for (int pres = 0; pres < 2; pres++) {
+    // ambient state the parser must not depend on: the caller's errno (a previous conversion may have left ERANGE there)
+    bool has_digit = in.find_first_of("0123456789") != std::string::npos;
+    for (int pa = 0; pa < 4; pa++) {
+        int pres = pa & 1, ambient = (pa & 2) || !has_digit ? ERANGE : 0;
+        if ((pa & 2) && !has_digit) continue;
         // 0: NUL-terminated (exact strlen+1 block), 1: length-delimited, exact-size block without terminator
         if (pres == 0 && memchr(in.data(), 0, in.size())) continue;
         size_t blk = pres == 0 ? in.size() + 1 : (in.size() ? in.size() : 1);
@@ -138,8 +143,9 @@ inline Outcome check_input(const std::string &in) {
         memcpy(mem, in.data(), in.size());
         if (pres == 0) mem[in.size()] = 0;
         long live0 = ledger().live;
+        errno = ambient;
         struct sx_parse_result res = pres == 0 ? sx_parse_string(mem) : sx_parse_stringn(mem, in.size());
-        const char *P = pres == 0 ? "string:" : "stringn:";
+        const char *P = pres == 0 ? (ambient && has_digit ? "string:errno-preset:" : "string:") : (ambient && has_digit ? "stringn:errno-preset:" : "stringn:");
         std::string key, msg;
         if (r.v == ACCEPT) {
             if (res.status != SXS_SUCCESS || !res.node) { key = "accept-refused"; msg = vp::fmt("status %d for a complete expression", (int)res.status); }
